@@ -27,7 +27,12 @@ def main(argv=None):
     s.add_argument('props', nargs='*')
     s.add_argument('--repo', default='/repo')
     s.add_argument('--jobs', type=int, default=0)
+    cf = sub.add_parser('conformance')
+    cf.add_argument('--repo', default='/repo')
     args = ap.parse_args(argv)
+    if args.cmd == 'conformance':
+        from . import conformance
+        return 2 if conformance.run(args.repo) else 0
     from .engine import run_check, run_replay, list_props, run_selftest
     if args.cmd == 'check':
         return run_check(args.prop, args.tier, args.repo, write_evidence=not args.no_evidence,
